@@ -311,3 +311,218 @@ def coq_file(lines, info):
     for k in info:
         out.append(GOALS[k])
     return "\n".join(out) + "\n"
+
+
+# ----------------------------------------------------------------------------------------------------------------- stopping rules
+# (round 7) the tests that end the outer loops are re-extracted from the CURRENT sources: for every `break` of the loop whose path condition mentions
+# the tolerance, the conjuncts are classified (guard on tol / first iteration at which the rule may fire / the numeric test), local names are inlined
+# through their assignments in the loop, the numeric test is translated to a proposition over R in (a, b, tol) = (newest value, previous value,
+# tolerance) and coqc re-checks that it is EQUIVALENT to the test of the model's rule (Model/DescentLoop.v rule_of, read over R by
+# Proofs/DescentProofsLoop.v stop_test_spec), that the first iteration and the guard are the model's.
+STOP_SITES = [   # item, file, function, class, alg id of Model/DescentLoop.v, abs criterion, selector constant (cvg_criterion == ...)
+    ("parafac stopping rule (abs_rec_error)", "tensorly/decomposition/_cp.py", "parafac", None, 0, True, "abs_rec_error"),
+    ("parafac stopping rule (rec_error)", "tensorly/decomposition/_cp.py", "parafac", None, 0, False, "rec_error"),
+    ("non_negative_parafac_hals stopping rule (abs_rec_error)", "tensorly/decomposition/_nn_cp.py", "non_negative_parafac_hals", None, 0, True, "abs_rec_error"),
+    ("non_negative_parafac_hals stopping rule (rec_error)", "tensorly/decomposition/_nn_cp.py", "non_negative_parafac_hals", None, 0, False, "rec_error"),
+    ("partial_tucker stopping rule", "tensorly/decomposition/_tucker.py", "partial_tucker", None, 1, True, None),
+    ("parafac2 stopping rule", "tensorly/decomposition/_parafac2.py", "parafac2", None, 2, True, None),
+    ("tensor_ring_als stopping rule", "tensorly/decomposition/_tr_als.py", "tensor_ring_als", None, 3, True, None),
+    ("CMTF stopping rule", "tensorly/decomposition/_cmtf_als.py", "coupled_matrix_tensor_3d_factorization", None, 4, True, None),
+    ("CPRegressor stopping rule", "tensorly/regression/cp_regression.py", "fit", "CPRegressor", 5, True, None),
+    ("TuckerRegressor stopping rule", "tensorly/regression/tucker_regression.py", "fit", "TuckerRegressor", 5, True, None),
+    ("hals_nnls stopping rule", "tensorly/solvers/nnls.py", "hals_nnls", None, 6, True, None),
+]
+LOOPVARS = ("iteration", "iter")
+TOLNAMES = ("tol", "self.tol")
+
+
+def _parents(root):
+    par = {}
+    for n in ast.walk(root):
+        for c in ast.iter_child_nodes(n):
+            par[c] = n
+    return par
+
+
+def _mentions(node, names):
+    for x in ast.walk(node):
+        if isinstance(x, (ast.Name, ast.Attribute)):
+            try:
+                if _name(x) in names:
+                    return True
+            except Untranslatable:
+                pass
+    return False
+
+
+class StopExpr(Expr):
+    """numeric side of a stopping test: X[-1] -> a, X[-2] -> b (any history list X), error_new -> a, error_old -> b, tol / self.tol -> tol;
+    hals_nnls: rec_error -> a, rec_error0 -> f (the value of the first pass; the assignment `rec_error0 = rec_error` under `iteration == 0` is checked)"""
+    uses_first = False
+
+    def atom(self, node):
+        src = ast.unparse(node).replace(" ", "")
+        if src in TOLNAMES:
+            return "tol"
+        if src in ("error_new", "rec_error") or (isinstance(node, ast.Subscript) and src.endswith("[-1]")):
+            return "a"
+        if src == "rec_error0":
+            StopExpr.uses_first = True
+            return "f"
+        if src == "error_old" or (isinstance(node, ast.Subscript) and src.endswith("[-2]")):
+            return "b"
+        raise Untranslatable("quantity in a stopping test: " + ast.unparse(node))
+
+
+def _stop_rule(fn, selector):
+    """-> (proposition text over a b tol, first iteration, guard in {'truthy', 'positive', 'none'})"""
+    loops = [n for n in ast.walk(fn) if isinstance(n, ast.For) and isinstance(n.target, ast.Name) and n.target.id in LOOPVARS
+             and isinstance(n.iter, ast.Call) and _name(n.iter.func) == "range"]
+    if len(loops) != 1:
+        raise Untranslatable(f"{len(loops)} outer loops over range(..) with loop variable iteration / iter (expected 1)")
+    loop = loops[0]
+    lv = loop.target.id
+    par = _parents(loop)
+
+    class InnerLoop(Exception):
+        pass
+
+    def path(node, strict=True):
+        """tests of the enclosing Ifs; strict (for a break): the node must sit in their bodies, not in an else, and not in an inner loop"""
+        tests, n = [], node
+        while n is not loop:
+            p = par[n]
+            if isinstance(p, ast.If):
+                if any(n is x for x in p.body):
+                    tests.append(p.test)
+                elif any(n is x for x in p.orelse):
+                    # an `elif` chain on the selector: the earlier test is another value of the selector - fine; anything else is not translated
+                    if strict and not (selector and _mentions(p.test, ("cvg_criterion",))):
+                        raise Untranslatable("a stopping test sits in an else branch: " + ast.unparse(p.test)[:60])
+            elif isinstance(p, (ast.For, ast.While)) and p is not loop and strict:
+                raise InnerLoop()
+            n = p
+        return tests
+
+    def assigns_of(name):
+        out = []
+        for n in ast.walk(loop):
+            if isinstance(n, ast.Assign) and len(n.targets) == 1 and isinstance(n.targets[0], ast.Name) and n.targets[0].id == name:
+                out.append(n)
+        return out
+
+    def selected(n):
+        """is the statement on the branch of the selector constant (or on no selector branch)?"""
+        for t in path(n, strict=False):
+            if _mentions(t, ("cvg_criterion",)):
+                consts = [c.value for c in ast.walk(t) if isinstance(c, ast.Constant) and isinstance(c.value, str)]
+                if not (isinstance(t, ast.Compare) and len(t.ops) == 1 and isinstance(t.ops[0], ast.Eq) and len(consts) == 1):
+                    raise Untranslatable("selector test: " + ast.unparse(t))
+                if consts[0] != selector:
+                    return False
+        return True
+
+    def inline(node, depth=0):
+        """replace local names by their (selected) assignment inside the loop"""
+        if depth > 6:
+            return node       # deep chains are computations, not tests; what stays unknown is rejected by the translation below
+
+        class T(ast.NodeTransformer):
+            def visit_Name(self, n):
+                if n.id in LOOPVARS or n.id in ("tol", "error_new", "error_old", "rec_error", "rec_error0", "tl", "T", "np", "abs", "self"):
+                    return n
+                cands = [a for a in assigns_of(n.id) if selected(a)]
+                if len(cands) == 1:
+                    return inline(cands[0].value, depth + 1)
+                return n          # none / several assignments: left as it is (an unknown quantity in a tolerance test is rejected by the translation below)
+        import copy
+        return T().visit(copy.deepcopy(node))
+
+    rules = []
+    for br in [n for n in ast.walk(loop) if isinstance(n, ast.Break)]:
+        try:
+            tests = path(br)
+        except InnerLoop:
+            continue          # ends an inner loop, not the iteration loop
+        if not selected(br):
+            continue
+        tests = [inline(t) for t in tests if not _mentions(t, ("cvg_criterion",))]
+        conj = []
+        for t in tests:
+            conj += t.values if isinstance(t, ast.BoolOp) and isinstance(t.op, ast.And) else [t]
+        if not any(_mentions(c, TOLNAMES) for c in conj):
+            continue          # a break that has nothing to do with the tolerance (callback, all modes fixed, ...)
+        first, guard, numeric = 0, "none", []
+        for c in conj:
+            src = ast.unparse(c).replace(" ", "")
+            if src in TOLNAMES:
+                guard = "truthy"
+            elif src in ("tol>0", "0<tol", "self.tol>0"):
+                guard = "positive"
+            elif isinstance(c, ast.Compare) and len(c.ops) == 1 and isinstance(c.left, ast.Name) and c.left.id == lv and isinstance(c.comparators[0], ast.Constant):
+                k = c.comparators[0].value
+                if isinstance(c.ops[0], ast.Gt): first = max(first, k + 1)
+                elif isinstance(c.ops[0], ast.GtE): first = max(first, k)
+                else: raise Untranslatable("test on the loop variable: " + ast.unparse(c))
+            elif _mentions(c, ("verbose", "self.verbose")):
+                raise Untranslatable("a stopping test depends on verbose: " + ast.unparse(c))
+            else:
+                numeric.append(c)
+        if len(numeric) != 1:
+            raise Untranslatable(f"{len(numeric)} numeric tests on the path to a break: " + "; ".join(ast.unparse(x) for x in numeric))
+        rules.append((numeric[0], first, guard))
+    if len(rules) != 1:
+        raise Untranslatable(f"{len(rules)} tolerance-driven breaks in the outer loop (expected 1)")
+
+    def prop(n):
+        if isinstance(n, ast.BoolOp):
+            op = " \\/ " if isinstance(n.op, ast.Or) else " /\\ "
+            return "(" + op.join(prop(v) for v in n.values) + ")"
+        if isinstance(n, ast.Compare) and len(n.ops) == 1 and type(n.ops[0]) in CMP:
+            e = StopExpr()
+            return f"({e.tr(n.left)} {CMP[type(n.ops[0])]} {e.tr(n.comparators[0])})"
+        raise Untranslatable("stopping test: " + ast.unparse(n))
+    num, first, guard = rules[0]
+    StopExpr.uses_first = False
+    text = prop(num)
+    if StopExpr.uses_first:
+        ok = [a for a in assigns_of("rec_error0") if ast.unparse(a.value) == "rec_error" and
+              any(ast.unparse(t).replace(" ", "") == lv + "==0" for t in path(a, strict=False))]
+        if len(assigns_of("rec_error0")) != 1 or len(ok) != 1:
+            raise Untranslatable("rec_error0 is not the value of rec_error at the first iteration")
+    return text, first, guard, ast.unparse(num)
+
+
+GUARD_TERM = {"truthy": "truthy Rops tol", "positive": "fltb Rops (f0 Rops) tol", "none": "true"}
+STOP_HEADER = """From Coq Require Import Reals List Arith Lia Lra Bool.
+From TLV Require Import Base.Ops Model.DescentLoop Proofs.DescentProofsLoop.
+Import ListNotations.
+Open Scope R_scope.
+Ltac stop_equiv := intros a b f tol; unfold stop_prop; cbn; unfold Rabs; repeat match goal with |- context [Rcase_abs ?x] => destruct (Rcase_abs x) end;
+  solve [ tauto | split; intros; lra | split; (intros [?|?]; [left|right]; lra) | split; intros; nra ].
+"""
+
+
+def stop_rules(repo):
+    """-> (dict item -> Coq source of its goals, dict item -> description, list of broken ties 'ast:<item>: ...')"""
+    files, info, broken = {}, {}, []
+    for idx, (item, rel, fname, cls, alg, abs_crit, selector) in enumerate(STOP_SITES):
+        try:
+            import warnings
+            with warnings.catch_warnings():
+                warnings.simplefilter("ignore")
+                tree = ast.parse(open(os.path.join(repo, rel)).read())
+            fn = _func(tree, fname, cls=cls)
+            p, first, guard, srctxt = _stop_rule(fn, selector)
+        except Untranslatable as ex:
+            broken.append(f"ast:{item}: {ex}")
+            continue
+        except Exception as ex:
+            broken.append(f"ast:{item}: {type(ex).__name__}: {ex}")
+            continue
+        b = "true" if abs_crit else "false"
+        files[item] = (f"Definition gen_stop_{idx} (a b f tol : R) : Prop := {p}.\n"
+                       f"Goal forall a b f tol : R, gen_stop_{idx} a b f tol <-> stop_prop (sr_kind (rule_of Rops {alg} {b} tol)) tol a b f.\nProof. unfold gen_stop_{idx}. stop_equiv. Qed.\n"
+                       f"Goal forall tol : R, sr_min_it (rule_of Rops {alg} {b} tol) = {first}%nat /\\ sr_active (rule_of Rops {alg} {b} tol) = {GUARD_TERM[guard]}.\nProof. intros tol. split; reflexivity. Qed.\n")
+        info[item] = dict(test=srctxt, first_iteration=first, guard=guard)
+    return files, info, broken
